@@ -197,6 +197,78 @@ def _component(rng, template, dl, ol, depth, groups):
 
 
 # ---------------------------------------------------------------------------------------------
+# functions that are even in chosen leaves: stationary at 0 there, second derivative generally not 0
+# ---------------------------------------------------------------------------------------------
+
+EVEN_TEMPLATES = ("even_sub", "even_quad", "even_cos", "even_cosh", "even_cross")
+
+
+def _square_leaves(tree, sset):
+    """Replace every leaf in sset by its square."""
+    if tree[0] == "v":
+        return ["pow", tree, 2] if (tree[1], tree[2]) in sset else tree
+    if tree[0] == "c":
+        return tree
+    return [tree[0]] + [_square_leaves(ch, sset) if isinstance(ch, list) else ch for ch in tree[1:]]
+
+
+def gen_even_component(rng, template, sleaves, rest, depth):
+    """A scalar function that is even in every leaf of `sleaves` (so its first derivatives w.r.t. them are
+    exactly zero at 0, also in floating point) while the second derivatives are generally non-zero.
+    `rest`: all other leaves (non-stationary derivative variables and other variables)."""
+    sleaves = [list(l) for l in sleaves]
+    rest = [list(l) for l in rest]
+    for attempt in range(40):
+        t = _even(rng, template, sleaves, rest, depth)
+        if bound(t)[1]:
+            return t
+    return ["mul", _const(rng), ["pow", ["v", sleaves[0][0], int(sleaves[0][1])], 2]]
+
+
+def _even(rng, template, sl, rest, depth):
+    V = lambda l: ["v", l[0], int(l[1])]
+    g = (lambda d: gen_tree(rng, rest, d)) if rest else (lambda d: _const(rng))
+    d1 = max(1, depth - 1)
+    if template == "even_cross" and len(sl) < 2:
+        template = "even_quad"
+    if template == "even_sub":             # G(s_0**2, s_1**2, ..., rest)
+        t = gen_tree(rng, sl + rest, d1, need=sl)
+        t = _square_leaves(t, set(tuple(l) for l in sl))
+        if rng.random() < 0.5:             # make sure some pure second derivative does not vanish
+            t = ["add", t, ["mul", _const(rng), ["pow", V(sl[int(rng.integers(len(sl)))]), 2]]]
+        return t
+    if template == "even_quad":            # c(rest) * sum a_i s_i**2 + h(rest)
+        q = None
+        k = int(rng.integers(1, len(sl) + 1))
+        for j in rng.permutation(len(sl))[:k]:
+            term = ["mul", _const(rng), ["pow", V(sl[int(j)]), 2]]
+            q = term if q is None else ["add", q, term]
+        t = ["mul", g(max(1, d1 - 1)), q] if rng.random() < 0.6 else q
+        return ["add", t, g(max(1, d1 - 1))] if rng.random() < 0.5 else t
+    if template == "even_cos":             # cos(sum c_i s_i) * g(rest)
+        a = None
+        k = int(rng.integers(1, len(sl) + 1))
+        for j in rng.permutation(len(sl))[:k]:
+            term = ["mul", ["c", int(rng.choice([-6, -4, -3, 2, 4, 5, 8]))], V(sl[int(j)])]
+            a = term if a is None else ["add", a, term]
+        t = ["cos", a]
+        t = ["mul", t, g(max(1, d1 - 1))] if rng.random() < 0.6 else t
+        return ["add", t, g(max(1, d1 - 1))] if rng.random() < 0.4 else t
+    if template == "even_cosh":            # exp(s) + exp(-s)  (times g(rest))
+        s = V(sl[int(rng.integers(len(sl)))])
+        t = ["add", ["exp", s], ["exp", ["mul", ["c", -4], s]]]
+        return ["mul", g(max(1, d1 - 1)), t] if rng.random() < 0.5 else t
+    # even_cross: s_i * s_j * g(rest) + a * s_k**2   (mixed second derivative != 0, gradient 0 at 0)
+    i, j = rng.permutation(len(sl))[:2]
+    t = ["mul", V(sl[int(i)]), V(sl[int(j)])]
+    if rng.random() < 0.6:
+        t = ["mul", t, g(max(1, d1 - 1))]
+    if rng.random() < 0.6:
+        t = ["add", t, ["mul", _const(rng), ["pow", V(sl[int(rng.integers(len(sl)))]), 2]]]
+    return t
+
+
+# ---------------------------------------------------------------------------------------------
 # the three evaluators
 # ---------------------------------------------------------------------------------------------
 
